@@ -5,7 +5,7 @@ from . import props_broker as _pb
 register(Prop(
     'C17', 'Mqtt.Properties.C17', ['conc', 'broker'],
     runs=[Run('conc', quick=30, thorough=300, seeds_thorough=4),
-          Run('broker-qos', quick=6000, thorough=40000, seeds_thorough=4)],
+          Run('broker-qos', quick=15000, thorough=60000, seeds_thorough=4)],
     oracle=by_core({'conc': eq_lines, 'broker': _pb.broker_oracle}),
     nontrivial=by_core({'conc': lambda op, out: out != 'reset', 'broker': _pb.broker_nontrivial}),
     spec_total=False, unspecified=_pb.overlap_episode,
